@@ -94,19 +94,56 @@ def run(chk):
     for m, a in leaks:
         chk.violation("C08.singleton", a, K.short(a), f"no attribute store in EmptyStreamReader.{m.name}()",
                       f"EmptyStreamReader.{m.name}() stores state on the instance, but EMPTY_PAYLOAD is a singleton shared by every body-less message: readchunk() returns the end-of-stream marker (b'', False) only on its first call ever; for the second body-less request of the process `async for ... in request.content.iter_chunks()` never ends and spins the event loop")
-    # ---- cancelsafe: a read that has taken bytes out of the buffer and is interrupted while waiting for more puts them back ---------------
-    for name, acc in (("readuntil", "chunk"), ("readexactly", "blocks")):
-        m = sr.methods.get(name)
-        if m is None:
-            continue
-        waits = [a for a in prog.awaits_in(m.node) if K.loop_ancestors(a)]
-        for a in waits:
-            hs = [h for _t, h in K.enclosing_try_handlers(a) if h.type is None or {"BaseException", "asyncio.CancelledError"} & set(PC.handler_types(h))]
-            if any(any(isinstance(c, ast.Call) and norm.raw(c.func) in ("self._unread_data", "self.unread_data") and acc in norm.raw(c) for c in ast.walk(h)) and isinstance(h.body[-1], ast.Raise) for h in hs):
-                chk.ok("C08.cancelsafe", a, f"{name}(): bytes already moved into `{acc}` are pushed back when the wait is interrupted")
+    # ---- emptyapi: the body-less stream answers the whole consumer API (it never ran StreamReader.__init__) -----------------------------------
+    em = repo.cls(MOD, "EmptyStreamReader")
+    if em is not None:
+        einit = em.methods.get("__init__")
+        have = {t.attr for st in ast.walk(einit.node) if isinstance(st, (ast.Assign, ast.AnnAssign)) for t in ast.walk(st) if isinstance(t, ast.Attribute) and isinstance(t.ctx, ast.Store)} if einit else set()
+        PRODUCER = {"begin_http_chunk_receiving": "producer side: only a parser that feeds a body calls it", "end_http_chunk_receiving": "producer side",
+                    "get_read_buffer_limits": "producer side: the parser asks the stream it is about to feed", "set_read_chunk_size": "producer side", "unread_data": "deprecated push-back"}
+        napi = 0
+        for name, m in sr.methods.items():
+            if name.startswith("_") or name in em.methods or name in PRODUCER:
+                continue
+            used = {a.attr for a in ast.walk(m.node) if isinstance(a, ast.Attribute) and isinstance(a.value, ast.Name) and a.value.id == "self"}
+            miss = sorted(used - have - set(sr.methods) - set(em.methods) - {"__slots__", "__class__"})
+            napi += 1
+            if miss:
+                chk.violation("C08.emptyapi", m, f"EmptyStreamReader inherits {name}()", f"an override in EmptyStreamReader (or `{miss[0]}` set in its __init__)",
+                              f"StreamReader.{name}() reads self.{miss[0]}, which the shared body-less stream EMPTY_PAYLOAD never sets (EmptyStreamReader.__init__ does not run StreamReader.__init__): `request.content.{name}` on a plain GET / `resp.content.{name}` on a 204 raises AttributeError where the same call on an empty chunked body works")
             else:
-                chk.violation("C08.cancelsafe", a, K.short(a, 50), f"except BaseException: self._unread_data({acc}...); raise",
-                              f"{name}() moves buffered bytes into the local `{acc}` and then waits for more; if that wait is cancelled (asyncio.wait_for timing out) the bytes are dropped: `event: par` + timeout + `tial\\n` makes the next readline() return `tial\\n`, ten received bytes are never returned and no error is set")
+                chk.ok("C08.emptyapi", m, f"EmptyStreamReader can inherit {name}(): it touches nothing the empty stream lacks")
+        chk.expect_count("C08.emptyapi", napi, 3, "public StreamReader methods the empty stream inherits")
+    # ---- cancelsafe: a read that has taken bytes out of the buffer and is interrupted while waiting for more puts them back ---------------
+    ncs = 0
+    for name, m in sr.methods.items():
+        for lp in [l for l in ast.walk(m.node) if isinstance(l, (ast.While, ast.For))]:
+            waits = [a for a in prog.awaits_in(lp) if next(iter(K.loop_ancestors(a)), None) is lp]
+            if not waits:
+                continue
+            # locals that collect bytes over the iterations: X.append(..) / X += .. / X = X + ..
+            accs = set()
+            for st in ast.walk(lp):
+                if isinstance(st, ast.Call) and isinstance(st.func, ast.Attribute) and st.func.attr in ("append", "extend") and isinstance(st.func.value, ast.Name):
+                    accs.add(st.func.value.id)
+                elif isinstance(st, ast.AugAssign) and isinstance(st.target, ast.Name) and isinstance(st.op, ast.Add) and not isinstance(st.value, ast.Constant):
+                    accs.add(st.target.id)
+            # only accumulators of bytes taken from this stream (fed from a self-read), not counters
+            accs = {x for x in accs if any(isinstance(c, ast.Call) and norm.raw(c.func).startswith(("self._read_nowait", "self.read")) for c in ast.walk(lp))
+                    and not any(isinstance(st, ast.AugAssign) and isinstance(st.target, ast.Name) and st.target.id == x and isinstance(st.value, ast.Call) and norm.raw(st.value.func) == "len" for st in ast.walk(lp))}
+            accs -= {"offset", "n", "chunk_size", "i"}
+            if not accs:
+                continue
+            for a in waits:
+                ncs += 1
+                hs = [h for _t, h in K.enclosing_try_handlers(a) if h.type is None or {"BaseException", "asyncio.CancelledError"} & set(PC.handler_types(h))]
+                if any(any(isinstance(c, ast.Call) and norm.raw(c.func) in ("self._unread_data", "self.unread_data") and any(x in norm.raw(c) for x in accs) for c in ast.walk(h)) and isinstance(h.body[-1], ast.Raise) for h in hs):
+                    chk.ok("C08.cancelsafe", a, f"{name}(): bytes already moved into `{'/'.join(sorted(accs))}` are pushed back when the wait is interrupted")
+                else:
+                    acc = sorted(accs)[0]
+                    chk.violation("C08.cancelsafe", a, K.short(a, 50), f"except BaseException: self._unread_data({acc}...); raise",
+                                  f"{name}() moves buffered bytes into the local `{acc}` and then waits for more; if that wait is cancelled (asyncio.wait_for timing out) the bytes are dropped: `event: par` + timeout + `tial\\n` makes the next read return `tial\\n`, the bytes received before are never returned and no error is set")
+    chk.expect_count("C08.cancelsafe", ncs, 3, "waits inside accumulating read loops of StreamReader")
     # ---- sepsplit: a multi-byte separator that straddles two buffered blocks is found -----------------------------------------------------
     ru = sr.methods.get("readuntil")
     if ru is not None:
